@@ -406,10 +406,7 @@ impl Issuer {
             build_decoys(&mut updated_claims, decoy_count)?;
         }
 
-        // there is no top-level `_sd` when only nested members or array elements are disclosable
-        if let Some(sd_array) = updated_claims.get_mut("_sd").and_then(Value::as_array_mut) {
-            sd_array.shuffle(&mut rand::thread_rng());
-        }
+        shuffle_digests(&mut updated_claims);
 
         if !disclosures.is_empty() {
             let algorithm = disclosures[0].get_algorithm().to_string();
@@ -455,14 +452,16 @@ fn build_disclosure(claims: &mut Value, disclosable_claim: &str) -> Result<Discl
     if parent.is_array() {
         let parent = parent.as_array_mut().ok_or(Error::InvalidPathPointer)?;
         let key_index = key.parse()?;
-        let value = parent.remove(key_index);
+        let mut value = parent.remove(key_index);
+        shuffle_digests(&mut value);
         let disclosure = Disclosure::new(None, value.clone()).build()?;
         parent.insert(key_index, serde_json::json!({ "...": disclosure.digest() }));
         return Ok(disclosure);
     }
     let parent = parent.as_object_mut().ok_or(Error::InvalidPathPointer)?;
 
-    let value = parent.remove(key).ok_or(Error::InvalidPathPointer)?;
+    let mut value = parent.remove(key).ok_or(Error::InvalidPathPointer)?;
+    shuffle_digests(&mut value);
 
     let disclosure = Disclosure::new(Some(key.to_owned()), value.clone()).build()?;
 
@@ -481,6 +480,20 @@ fn build_disclosure(claims: &mut Value, disclosable_claim: &str) -> Result<Discl
     }
 
     Ok(disclosure)
+}
+
+// the order of the digests in a `_sd` list must not reveal the order of the claims they hide
+fn shuffle_digests(claims: &mut Value) {
+    match claims {
+        Value::Object(map) => {
+            if let Some(sd_array) = map.get_mut("_sd").and_then(Value::as_array_mut) {
+                sd_array.shuffle(&mut rand::thread_rng());
+            }
+            map.values_mut().for_each(shuffle_digests);
+        }
+        Value::Array(array) => array.iter_mut().for_each(shuffle_digests),
+        _ => {}
+    }
 }
 
 fn build_decoys(claims: &mut Value, decoy_count: i32) -> Result<Vec<Decoy>, Error> {
